@@ -412,7 +412,9 @@ def tasks(tier, seed):
             if tier == "quick" and sc == "monotone" and cone != "theta60":
                 continue
             ts.append({"id": f"f1[{cone},{sc}]", "fn": "f1_task",
-                       "args": {"cone": cone, "W": W.tolist(), "N": 2 if tier == "quick" else 3, "scenario": sc, "tier": tier},
+                       # N = 3 did not finish in 90 min per scenario (coverage forks × gap forks × true/pred sets): N = 2 in both tiers,
+                       # the thorough tier adds the third cone
+                       "args": {"cone": cone, "W": W.tolist(), "N": 2, "scenario": sc, "tier": tier},
                        "weight": 20})
     return ts
 
@@ -423,7 +425,7 @@ def meta(tier):
         "level": "model_checking",
         "functions": src_info(uu.get_smallmij, uu.get_delta, uu.is_covered, uu.get_uncovered_size,
                               ev.calculate_epsilonF1_score),
-        "bounds": {"N": "2 quick / 3 thorough value vectors", "m": "2 (3 for m(i,j))", "cones": [c for c, _ in cone_set(tier)]},
+        "bounds": {"N": "2 value vectors for ε-F1 and gaps (3 for gaps in the thorough tier, 2-D cones)", "m": "2 (3 for m(i,j))", "cones": [c for c, _ in cone_set(tier)]},
         "stubs": ["cvxpy exact-answer stub for utils.is_covered", "α concrete = VOPy's own get_alpha_vec output "
                   "(cross-checked against an independent KKT oracle; its optimality is C17)"],
         "assumptions": ["floats are encoded as exact reals", "α's defining property w_n·u ≤ α_n for unit u∈C is used as a "
